@@ -89,4 +89,4 @@ package definition
 //@   at return: assert [C17.strategyMap] err == nil ==> (strategyName == "append" ==> *s == QueueStrategyAppend) && (strategyName == "replace" ==> *s == QueueStrategyReplace)
 //@   ensures  [C17.strategyKnown] res == nil ==> *s == QueueStrategyAppend || *s == QueueStrategyReplace
 
-//@ property C17: definition.*/ensures[C17.*] definition.*/loop* definition.strSliceEquals/* definition.*/safety
+//@ property C17: definition.*/assert[C17.*] definition.*/ensures[C17.*] definition.*/loop* definition.strSliceEquals/* definition.*/safety
